@@ -149,6 +149,17 @@ pub fn field_mutations(spec: &XzSpec, file: &XzFile) -> Vec<(Mut, bool)> {
     for x in u64_variants(spec.blocks.len() as u64, VLI_MAX) {
         v.push((Mut::IndexCount(x), true));
     }
+    for keep in 0..spec.blocks.len() {
+        v.push((Mut::IndexTruncate { keep }, true));
+    }
+    v.push((Mut::IndexExtra { unpadded: 12, unpacked: 0 }, true));
+    if let Some(last) = spec.blocks.last() {
+        let bl = file.layout.blocks.last().unwrap();
+        v.push((
+            Mut::IndexExtra { unpadded: (bl.header_len + bl.payload_len + bl.check_len) as u64, unpacked: last.content.len() as u64 },
+            true,
+        ));
+    }
     for k in 0..file.layout.index_pad {
         v.push((Mut::IndexPad { k, val: 1 }, true));
         v.push((Mut::IndexPad { k, val: 0x80 }, true));
@@ -201,6 +212,8 @@ pub fn mut_name(m: &Mut) -> &'static str {
         Mut::IndexUnpadded { .. } => "index unpadded size",
         Mut::IndexUnpacked { .. } => "index uncompressed size",
         Mut::IndexPad { .. } => "index padding",
+        Mut::IndexTruncate { .. } => "index lists fewer records than blocks",
+        Mut::IndexExtra { .. } => "index lists more records than blocks",
         Mut::IndexCrc(_) => "index crc32",
         Mut::FooterCrc(_) => "footer crc32",
         Mut::BackwardSize(_) => "backward size",
@@ -265,6 +278,7 @@ impl Property for C06 {
             ("field:index padding", 100 * m),
             ("field:block check", 1000 * m),
             ("field:index record count", 1000 * m),
+            ("field:index lists fewer records than blocks", 500 * m),
             ("field:footer flags", 1000 * m),
             ("flip", 100_000 * m),
             ("truncation", 30_000 * m),
